@@ -256,7 +256,9 @@ var webURIs = []string{"https://app.example.com/cb", "https://app.example.com/cb
 var nativeURIs = []string{"http://localhost/cb", "http://127.0.0.1/cb", "http://127.0.0.1:8080/cb?a=b", "http://[::1]/cb",
 	"com.example.app:/cb", "myapp://callback", "https://app.example.com/cb", "http://app.example.com/cb", "https://localhost/cb",
 	"http://localhost:3000/auth/callback", "http://[::1]:8080/cb?x=1", "https://[2001:db8::1]/cb", "myapp://cb?x=*",
-	"http://localhost/cb/", "MyApp://Callback"}
+	"http://localhost/cb/", "MyApp://Callback",
+	// loopback registrations with queries (several keys, an encoded space)
+	"http://localhost/auth/callback", "http://localhost/cb?a=1&b=2", "http://127.0.0.1/cb?q=a+b&z=%2Fhome", "http://[::1]/cb?b=2&a=1&a=0"}
 var globPool = []string{"https://*.example.com/cb", "https://app.example.com/**", "https://app.example.com/{cb,cb2}",
 	"http://localhost:*/cb", "myapp://*", "https://app.example.com/c?", "http://127.0.0.1:*/**", "https://[", "https://app.example.com/[a-",
 	"https://app.example.com/{cb", "http://*/cb", "**"}
@@ -356,7 +358,94 @@ func loopNear(r drv.Rand, base string) (string, bool) {
 	if r.Chance(1, 5) && (scheme == "http" || scheme == "https") {
 		scheme = map[string]string{"http": "https", "https": "http"}[scheme]
 	}
-	return scheme + "://" + user + drv.Pick(r, loopHosts) + port + tail, true
+	host := drv.Pick(r, loopHosts)
+	if r.Chance(1, 3) { // a genuine loopback host whose QUERY is a near miss of the registered one
+		host, tail = drv.Pick(r, loopHosts[:8]), queryNear(r, tail)
+	}
+	return scheme + "://" + user + host + port + tail, true
+}
+
+// queryNear: tail (path?query#fragment) with a query that differs from the original only by what
+// net/url's Query() discards, reorders or decodes alike: pairs with ';', bad percent escapes, empty
+// pairs and keys, reordered and duplicated pairs, '+' against %20, the case of escapes, a bare '?'.
+// The property compares the raw query string ("differs only in scheme, host spelling and port").
+func queryNear(r drv.Rand, tail string) string {
+	frag := ""
+	if i := strings.IndexByte(tail, '#'); i >= 0 {
+		tail, frag = tail[:i], tail[i:]
+	}
+	path, query, has := strings.Cut(tail, "?")
+	add := func(p string) string {
+		if query == "" {
+			return p
+		}
+		if r.Bool() {
+			return p + "&" + query
+		}
+		return query + "&" + p
+	}
+	pairs := strings.Split(query, "&")
+	switch r.IntN(12) {
+	case 0, 1:
+		query = add(drv.Pick(r, []string{"next=%2Fhome;role=admin", "a;b", ";", "x=1;y=2", "redirect=https://evil.example/;x"}))
+	case 2, 3:
+		query = add(drv.Pick(r, []string{"%zz=1", "a=%zz", "%=1", "a=%", "a=%2", "%gg", "x=%u0041"}))
+	case 4:
+		query = add(drv.Pick(r, []string{"", "&", "=", "=x", "&&"}))
+	case 5:
+		if len(pairs) > 1 { // same pairs, other order
+			i := r.IntN(len(pairs) - 1)
+			pairs[i], pairs[i+1] = pairs[i+1], pairs[i]
+			query = strings.Join(pairs, "&")
+		} else {
+			query = add("zz=1")
+		}
+	case 6:
+		if query != "" {
+			query = add(drv.Pick(r, pairs)) // a pair twice
+		} else {
+			query = "a=1&a=1"
+		}
+	case 7:
+		switch {
+		case strings.Contains(query, "+"):
+			query = strings.Replace(query, "+", "%20", 1)
+		case strings.Contains(query, "%20"):
+			query = strings.Replace(query, "%20", "+", 1)
+		case strings.Contains(query, "%2F"):
+			query = strings.Replace(query, "%2F", drv.Pick(r, []string{"%2f", "/"}), 1)
+		case strings.Contains(query, "="):
+			query = strings.Replace(query, "=", "%3D", 1) // decodes to the same text, is another key
+		default:
+			query = add("a=b+c")
+		}
+	case 8:
+		if has && query == "" {
+			return path + frag
+		}
+		if !has {
+			return path + "?" + frag // a bare question mark
+		}
+		query = add("x=1") // an ordinary extra parameter
+	case 9:
+		query = add(drv.Pick(r, []string{"x=1", "state=evil", "code=evil", "error=access_denied"}))
+	case 10:
+		if len(pairs) > 1 { // a pair less
+			query = strings.Join(pairs[1:], "&")
+		} else {
+			query = ""
+		}
+	default:
+		if query != "" { // a key without '=' / with an empty value
+			query = strings.TrimSuffix(query, "=") + "="
+		} else {
+			query = "a"
+		}
+	}
+	if query == "" {
+		return path + frag
+	}
+	return path + "?" + query + frag
 }
 
 func longPad(r drv.Rand) string {
@@ -649,6 +738,18 @@ func (k errKind) mk() func() error {
 				e = oidc.ErrInvalidClient().WithDescription("no such client")
 			case "access_denied":
 				e = oidc.ErrAccessDenied()
+			case "login_required":
+				e = oidc.ErrLoginRequired().WithDescription("storage: no session")
+			case "interaction_required":
+				e = oidc.ErrInteractionRequired()
+			case "invalid_request":
+				e = oidc.ErrInvalidRequest().WithDescription("storage: no")
+			case "unauthorized_client":
+				e = oidc.ErrUnauthorizedClient()
+			case "invalid_scope":
+				e = oidc.ErrInvalidScope()
+			case "request_not_supported":
+				e = oidc.ErrRequestNotSupported()
 			default:
 				e = oidc.ErrServerError().WithDescription("backend down")
 			}
@@ -668,12 +769,15 @@ func (k errKind) tag() string {
 	return []string{"plain", "typed", "noredirect"}[k.kind]
 }
 
+// the OAuth error classes a storage may answer with
+var typedCodes = []string{"invalid_client", "server_error", "access_denied", "login_required", "interaction_required", "invalid_request", "unauthorized_client", "invalid_scope", "request_not_supported"}
+
 func genErrKind(r drv.Rand) errKind {
 	k := errKind{wrap: r.Chance(1, 3)}
 	switch r.IntN(5) {
 	case 0, 1:
 	case 2, 3:
-		k.kind, k.code = 1, drv.Pick(r, []string{"invalid_client", "server_error", "access_denied"})
+		k.kind, k.code = 1, drv.Pick(r, typedCodes)
 	default:
 		k.kind = 2
 	}
@@ -786,12 +890,15 @@ type areq struct {
 	hintIss               string // "" = no signed hint; else a hint really signed for this issuer is sent
 	fault                 int    // 0 none, 1 GetClientByClientID, 2 CreateAuthRequest
 	fkind                 errKind
+	dups                  []string          // redirect_uri sent more than once: the values before the last one (= uri), in Request.Form order
+	dupFirst              map[string]string // earlier value of another repeated parameter (state, response_type, client_id, response_mode); not a model dimension: the last value counts
+	post                  int               // 0 GET; 1 POST, everything in the body; 2 POST, the earlier values of repeated parameters in the body, the rest in the query (Request.Form = body values, then query values)
 }
 
 func (q areq) term() string {
 	return emit.Ctor("Build_areq", emit.Str(q.client), emit.Str(q.uri), emit.Str(q.rt), emit.Str(q.mode),
 		emit.Bool(q.malformed), q.ro.term(termClients), []string{"P_Ok", "P_Bad", "P_None"}[q.prompt],
-		emit.Bool(q.noscope), emit.Bool(q.hintBad), q.faultTerm())
+		emit.Bool(q.noscope), emit.Bool(q.hintBad), q.faultTerm(), emit.StrList(q.dups))
 }
 
 // termClients: the registrations of the session being emitted (sigOK needs them)
@@ -814,6 +921,9 @@ func (q areq) values() url.Values {
 	}
 	if q.uri != "" {
 		v.Set("redirect_uri", q.uri)
+	}
+	if len(q.dups) > 0 {
+		v["redirect_uri"] = append(append([]string{}, q.dups...), q.uri)
 	}
 	if q.rt != "" {
 		v.Set("response_type", q.rt)
@@ -844,6 +954,11 @@ func (q areq) values() url.Values {
 		v.Set("id_token_hint", signHint(q.hintIss))
 	} else if q.hintBad {
 		v.Set("id_token_hint", "aaa.bbb.ccc")
+	}
+	for k, first := range q.dupFirst {
+		if last, ok := v[k]; ok {
+			v[k] = append([]string{first}, last...)
+		}
 	}
 	return v
 }
@@ -1059,14 +1174,38 @@ func newSession(reqobj bool, clients []*refstore.Client) *session {
 
 // get sends one GET to the fixture, with the write fault of h if it has one.
 func (s *session) get(h hop, path string, q url.Values) *opfix.Resp {
-	if h.cut == 0 {
+	if h.cut == 0 && h.q.post == 0 {
 		return s.f.GetAt(h.router, hostOf(h.q), "", path, q)
 	}
 	target := "https://" + hostOf(h.q) + path
-	if q != nil {
-		target += "?" + q.Encode()
+	var req *http.Request
+	if h.q.post == 0 {
+		if q != nil {
+			target += "?" + q.Encode()
+		}
+		req = httptest.NewRequest(http.MethodGet, target, nil)
+	} else {
+		body, query := url.Values{}, url.Values{}
+		for k, vs := range q {
+			switch {
+			case h.q.post == 1:
+				body[k] = vs
+			case len(vs) > 1:
+				body[k], query[k] = vs[:len(vs)-1], vs[len(vs)-1:]
+			default:
+				query[k] = vs
+			}
+		}
+		if len(query) > 0 {
+			target += "?" + query.Encode()
+		}
+		req = httptest.NewRequest(http.MethodPost, target, strings.NewReader(body.Encode()))
+		req.Header.Set("Content-Type", "application/x-www-form-urlencoded")
 	}
-	return doCut(s.f.Handlers[h.router], httptest.NewRequest(http.MethodGet, target, nil), h.cut == 2, h.cutN)
+	if h.cut == 0 {
+		return opfix.Do(s.f.Handlers[h.router], req)
+	}
+	return doCut(s.f.Handlers[h.router], req, h.cut == 2, h.cutN)
 }
 
 func (s *session) step(h hop) {
@@ -1076,6 +1215,7 @@ func (s *session) step(h hop) {
 	switch h.kind {
 	case 0:
 		s.uris = append(s.uris, h.q.uri)
+		s.uris = append(s.uris, h.q.dups...)
 		if h.q.ro.kind == 2 {
 			s.uris = append(s.uris, h.q.ro.uri)
 		}
@@ -1111,7 +1251,7 @@ func (s *session) step(h hop) {
 			}
 		}
 		s.outs = append(s.outs, o)
-		s.human = append(s.human, map[string]any{"op": "authorize", "router": h.router.String(), "query": h.q.values(), "write_fault": cutNames[h.cut], "write_fault_bytes": h.cutN, "status": resp.Status, "location": resp.Header.Get("Location"), "body": trunc(resp.Body)})
+		s.human = append(s.human, map[string]any{"op": "authorize", "router": h.router.String(), "query": h.q.values(), "post": h.q.post, "write_fault": cutNames[h.cut], "write_fault_bytes": h.cutN, "status": resp.Status, "location": resp.Header.Get("Location"), "body": trunc(resp.Body)})
 	case 1:
 		if h.k < len(s.ids) {
 			store.Login(s.ids[h.k], "alice")
@@ -1230,6 +1370,18 @@ func genHistory(r drv.Rand, w *emit.Writer) {
 				q.uri, mut = "", "nouri"
 			}
 		}
+		if r.Chance(1, 6) { // repeated parameters, mostly together with an error that follows the validation
+			genDups(r, c, clients, &q)
+			mut += "+dup"
+			if mut == "none+dup" && r.Chance(2, 3) {
+				if r.Bool() {
+					q.prompt, mut = 2, "promptnone+dup"
+				} else {
+					q.fault, q.fkind = 2, genErrKind(r)
+					mut = "faultcreate-" + q.fkind.tag() + "+dup"
+				}
+			}
+		}
 		if q.ro.kind == 0 && r.Chance(1, 4) { // a really signed request object, parameters inside equal to / different from the outer ones
 			o := robj{kind: 2, iss: q.client, client: q.client, audOK: true, signer: "client:" + q.client, rt: q.rt, prompt: -1}
 			switch r.IntN(6) {
@@ -1242,10 +1394,15 @@ func genHistory(r drv.Rand, w *emit.Writer) {
 			case 4:
 				o.uri = "https://evil.example/cb"
 			}
-			if r.Chance(2, 3) { // the plain parameter is fine: only the one inside decides
+			switch r.IntN(8) {
+			case 0, 1, 2, 3: // the plain parameter is fine: only the one inside decides
 				q.uri = drv.Pick(r, c.Redirects)
-			} else if r.Chance(1, 3) {
-				q.uri = ""
+			case 4:
+				if len(q.dups) == 0 {
+					q.uri = ""
+				}
+			case 5, 6: // the plain parameter is not registered, the one inside may be
+				q.uri = drv.Pick(r, []string{"https://evil.example/cb", "http://evil.example/cb"})
 			}
 			if r.Chance(1, 4) {
 				switch r.IntN(8) {
@@ -1339,6 +1496,97 @@ func genHistory(r drv.Rand, w *emit.Writer) {
 	s.emit(w, tags)
 }
 
+// genDups: the request repeats parameters. redirect_uri twice or three times - an unregistered value
+// before or behind a registered one -, maybe state / response_type / client_id / response_mode as well,
+// in the query, in the body, or split over both. The decoder keeps the LAST value of Request.Form; every
+// answer must go to a URI that is registered, whichever value some other piece of code reads.
+func genDups(r drv.Rand, c *refstore.Client, clients []*refstore.Client, q *areq) {
+	reg := drv.Pick(r, c.Redirects)
+	var evil string
+	switch r.IntN(5) {
+	case 0, 1:
+		evil = drv.Pick(r, []string{"https://evil.example/cb", "http://evil.example/cb", "https://evil.example/cb?x=1#f", "evil://cb"})
+	case 2:
+		evil, _ = mutate(r, reg)
+	case 3:
+		evil = drv.Pick(r, drv.Pick(r, clients).Redirects)
+	default:
+		evil = drv.Pick(r, c.Redirects)
+	}
+	switch r.IntN(5) {
+	case 0, 1:
+		q.dups, q.uri = []string{evil}, reg
+	case 2:
+		q.dups, q.uri = []string{reg}, evil
+	case 3:
+		q.dups, q.uri = []string{evil, drv.Pick(r, c.Redirects)}, reg
+	default:
+		q.dups = []string{evil} // whatever the flow chose stays last
+		if q.uri == "" {
+			q.uri = reg
+		}
+	}
+	q.dupFirst = map[string]string{}
+	if r.Chance(1, 3) {
+		q.dupFirst["state"] = "first-state"
+	}
+	if r.Chance(1, 4) {
+		q.dupFirst["response_type"] = drv.Pick(r, []string{"code", "id_token token", "id_token", "bogus"})
+	}
+	if r.Chance(1, 4) {
+		q.dupFirst["client_id"] = drv.Pick(r, []string{"nobody", drv.Pick(r, clients).ID, ""})
+	}
+	if r.Chance(1, 4) {
+		q.dupFirst["response_mode"] = drv.Pick(r, []string{"query", "fragment", "form_post"})
+	}
+	q.post = r.IntN(3)
+}
+
+// directedDup: redirect_uri repeated (attacker value first / last) or overridden by a signed request
+// object, on both routers, with every error that can follow the validation, and on the success path.
+func directedDup(w *emit.Writer) {
+	const reg, evil = "https://app.example.com/cb", "https://evil.example/cb"
+	web := withKey(&refstore.Client{ID: "c0", App: op.ApplicationTypeWeb, RespTypes: []oidc.ResponseType{oidc.ResponseTypeCode, oidc.ResponseTypeIDToken},
+		Redirects: []string{reg, "https://app.example.com/cb2"}, ATType: op.AccessTokenTypeBearer})
+	type ev struct {
+		name string
+		set  func(q *areq)
+	}
+	errs := []ev{{"none", func(q *areq) {}}, {"promptnone", func(q *areq) { q.prompt = 2 }}, {"hintbad", func(q *areq) { q.hintBad = true }},
+		{"rt", func(q *areq) { q.rt = "id_token" }}}
+	for _, k := range []errKind{{}, {kind: 1, code: "access_denied"}, {kind: 1, code: "login_required", wrap: true}, {kind: 1, code: "server_error"}, {kind: 2}} {
+		k := k
+		errs = append(errs, ev{"faultcreate-" + k.tag(), func(q *areq) { q.fault, q.fkind = 2, k }})
+	}
+	for _, router := range []opfix.Router{opfix.Provider, opfix.Legacy} {
+		for vi, variant := range []string{"evilfirst", "evillast", "roregistered", "roevil"} {
+			for _, e := range errs {
+				for _, post := range []int{0, 2} {
+					q := areq{client: "c0", rt: "code", post: post, dupFirst: map[string]string{"state": "first-state"}}
+					switch vi {
+					case 0:
+						q.dups, q.uri = []string{evil}, reg
+					case 1:
+						q.dups, q.uri = []string{reg}, evil
+					case 2:
+						q.uri = evil
+						q.ro = robj{kind: 2, iss: "c0", client: "c0", audOK: true, signer: "client:c0", rt: "code", uri: reg, prompt: -1, scope: "openid"}
+					default:
+						q.uri = reg
+						q.ro = robj{kind: 2, iss: "c0", client: "c0", audOK: true, signer: "client:c0", rt: "code", uri: evil, prompt: -1, scope: "openid"}
+					}
+					e.set(&q)
+					if q.ro.kind == 2 {
+						q.ro.rt = q.rt
+					}
+					ops := []hop{{kind: 0, router: router, q: q}, {kind: 1, k: 0}, {kind: 2, router: router, k: 0}}
+					runHistory(w, true, []*refstore.Client{web}, ops, []string{"kind=history", "directed=repeated", "dup=" + variant, "err=" + e.name, "router=" + router.String(), fmt.Sprintf("post=%d", post)})
+				}
+			}
+		}
+	}
+}
+
 func genCut(r drv.Rand) (int, int) {
 	if r.Chance(1, 4) {
 		return 2, drv.Pick(r, []int{0, 1, 40, 200})
@@ -1393,6 +1641,7 @@ func genSequence(r drv.Rand, w *emit.Writer) {
 		uri string
 	}
 	var prev []prevReq
+	dupTag := false
 	for fl := 0; fl < nflows; fl++ {
 		ci := (first + fl) % nc // neighbouring flows belong to different clients
 		c := clients[ci]
@@ -1438,6 +1687,10 @@ func genSequence(r drv.Rand, w *emit.Writer) {
 			default:
 				q.rt = ""
 			}
+		}
+		if r.Chance(1, 8) {
+			genDups(r, c, clients, &q)
+			dupTag = true
 		}
 		h := hop{kind: 0, router: pickRouter(r), q: q}
 		cutOf(&h, 1, 8)
@@ -1486,6 +1739,9 @@ func genSequence(r drv.Rand, w *emit.Writer) {
 		}
 		sort.Strings(ks)
 		tags = append(tags, ks...)
+	}
+	if dupTag {
+		tags = append(tags, "dup=1")
 	}
 	seen := map[string]bool{}
 	for _, o := range ops {
@@ -1596,6 +1852,7 @@ func main() {
 	directed(r, w)
 	directedRO(w)
 	directedCut(w)
+	directedDup(w)
 	nv := cfg.Count(900, 14000)
 	nh := cfg.Count(700, 10000)
 	ns := cfg.Count(200, 3000)
